@@ -2,9 +2,9 @@ SPECIFICATION Spec
 CONSTANTS
   Configs <- StmtConfigsT
   ThrVals = {0,2,5}
-  ThrIdx = {1,2}
+  ThrIdx = {1}
   Sevs = {0,2,4}
-  Items = {"s","i","c"}
+  Items = {"s","c"}
   IsCall <- MCIsCall
   Text <- MCText
   MaxItems = 2
